@@ -152,6 +152,33 @@ def run(chk):
         chk.ob('C10-L', '%s reads only list/indexes' % fq, ok, 'reads %s' % sorted(stores), fi.loc,
                key='C10-L|%s|view' % fq)
 
+    # ---- O order agreement between list and by-name index on positional replacement
+    chk.rule('C10-O', 'a positional replacement inserts the new child at the old child\'s position in the list AND at the old '
+                      'child\'s position in indexes[name], so that lookup by name and by position keep the same relative order')
+    rc = ix.func('core.ElementList.replace_child')
+    old_p, new_p = rc.call_params()[0], rc.call_params()[1]
+    ins_calls = [n for n in own_nodes(rc.node) if isinstance(n, ast.Call) and norm(n.func) == 'self.insert']
+    chk.floor('replace_child -> insert call sites', len(ins_calls), 1)
+
+    def assigned(var):
+        return [norm(n.value) for n in own_nodes(rc.node) if isinstance(n, ast.Assign) and norm(n.targets[0]) == var]
+    for call in ins_calls:
+        ok = len(call.args) >= 3 and isinstance(call.args[0], ast.Name) and isinstance(call.args[2], ast.Name) and \
+            any(t == 'self.list.index(%s)' % old_p for t in assigned(call.args[0].id)) and \
+            any(t.startswith('self.indexes[') and t.endswith('.index(%s)' % old_p) for t in assigned(call.args[2].id)) and \
+            norm(call.args[1]) == new_p
+        chk.ob('C10-O', 'replace_child keeps list order and by-name order in step', ok,
+               '`%s`: the new child does not get the old child\'s position in both structures' % norm(call),
+               '%s:%d' % (rc.module.relpath, call.lineno), key='C10-O|replace_child')
+    ins = ix.func('core.ElementList.insert')
+    ip = ins.call_params()
+    ok = any(isinstance(n, ast.Call) and norm(n.func).startswith('self.indexes[') and norm(n.func).endswith('.insert') and
+             n.args and norm(n.args[0]) == ip[2] for n in own_nodes(ins.node)) and \
+        any(isinstance(n, ast.Call) and norm(n.func) == 'self.list.insert' and n.args and norm(n.args[0]) == ip[0]
+            for n in own_nodes(ins.node))
+    chk.ob('C10-O', 'insert() uses its list position for the list and its by-name position for the index', ok, '', ins.loc,
+           key='C10-O|insert')
+
     # ---- V admission dominance
     admission(chk, c, 'C10-V')
 
